@@ -172,8 +172,13 @@ impl ByronAddress {
         addr_bytes.finalize()
     }
     pub fn from_bytes(bytes: Vec<u8>) -> Result<ByronAddress, JsError> {
+        let len = bytes.len() as u64;
         let mut raw = Deserializer::from(std::io::Cursor::new(bytes));
         let extended_addr = ExtendedAddr::deserialize(&mut raw)?;
+        // like the Shelley address kinds, a stand-alone Byron address must use up all the bytes
+        if raw.inner().position() < len {
+            return Err(DeserializeError::from(cbor_event::Error::TrailingData).into());
+        }
         Ok(ByronAddress(extended_addr))
     }
     /// returns the byron protocol magic embedded in the address, or mainnet id if none is present
